@@ -1,6 +1,6 @@
 (** C05 — a failed evaluation leaves a consistent, retryable state. *)
 From Coq Require Import List ZArith Bool.
-From MX Require Import Exec.Model Exec.Spec Exec.Sim Exec.Top.
+From MX Require Import Exec.Model Exec.Spec Exec.Sim Exec.Top Exec.Chain Exec.Sim3 Exec.Cover Exec.Quiet.
 Import ListNotations.
 
 (** For every failure position and error kind: the cache invariant still
@@ -28,9 +28,30 @@ Theorem C05_retry : forall fuel st i k st1 j r st2,
 Proof. exact retry_after_failure. Qed.
 Print Assumptions C05_retry.
 
-(** PARTIAL: the clause "no element on the failing chain acquires a value" is
-    not a theorem yet (it needs the no-self-dependency argument, DESIGN 6/C05);
-    it is covered by the correspondence and the oracle only.
+(** No element on the failing chain acquires a value.  The failing chain is
+    [Chain.spec_chain] (by C17 it is what get_traceback() lists).  From any
+    invariant state: an element of the chain holds no *computed* value
+    afterwards (if it holds one at all it is an input of an uncached cells,
+    which reachable states exclude, next theorem). *)
+Theorem C05_chain_holds_no_computed_value : forall fuel st i k st',
+  eval_top fuel st i = (Err k, st') -> k <> KDeep -> Inv st -> lookup_cell (s_cells st) (fst i) <> None ->
+  forall g rc cc, spec_chain g (defs_of st) (input_data st) i = (rc, cc) -> rc <> OutOfFuel ->
+  forall j l v, In (j, l) cc -> lookup_data (s_data st') j = Some v ->
+    is_cached st' (fst j) = false /\ mem_item j (s_inputs st') = true.
+Proof. exact chain_holds_no_computed_value. Qed.
+Print Assumptions C05_chain_holds_no_computed_value.
+
+(** In the states histories reach ([Quiet], C02/C08): no value at all. *)
+Theorem C05_chain_holds_no_value : forall fuel st i k st',
+  eval_top fuel st i = (Err k, st') -> k <> KDeep -> Quiet st -> s_reent st = false -> s_reent st' = false ->
+  lookup_cell (s_cells st) (fst i) <> None ->
+  forall g rc cc, spec_chain g (defs_of st) (input_data st) i = (rc, cc) -> rc <> OutOfFuel ->
+  forall j l, In (j, l) cc -> lookup_data (s_data st') j = None.
+Proof. exact chain_holds_no_value. Qed.
+Print Assumptions C05_chain_holds_no_value.
+
+(** Excluded from the two theorems above: the recursion-depth error (its
+    position depends on the executor's stack bound).
     Non-vacuity: a chain failing at depth 3 after a completed sibling. *)
 Definition ex5_cells : list (cid * cell) :=
   [ (0, mkCell [SAssign (ECall 1 [EPar 0]); SAssign (ECall 2 [EPar 0])] 1 [] true false 0);
